@@ -90,7 +90,12 @@ def cli_recording(rec, out_path, path_index):
 
     def mk_generate(orig):
         def generate(self, *samples):
-            ids = [s.get("sid") for s in samples if isinstance(s, dict) and isinstance(s.get("sid"), int)]
+            def sid_of(s):
+                v = s.get("sid") if "sid" in s else (s.get("main") or {}).get("sid") if isinstance(s.get("main"), dict) else None
+                if isinstance(v, str) and v.isdigit():       # ini files: every value is a string
+                    v = int(v)
+                return v if isinstance(v, int) and not isinstance(v, bool) else None
+            ids = [sid_of(s) for s in samples if isinstance(s, dict) and sid_of(s) is not None]
             model = ""
             cli = state["cli"]
             if cli is not None:
